@@ -768,7 +768,7 @@ def jobs(name, tier):
     quick = tier == "quick"
     out = []
     if name == "eventlog":
-        n = 4 if quick else 6
+        n = 4 if quick else 5
         rets = [("none",), ("size", 1), ("size", 2), ("time", 1.5), ("time", 3.0)]
         alpha = ["a0", "a1", "a2", "aa", "ab", "read", "wait"]
         for P in (1, 2, 3):
